@@ -200,7 +200,21 @@ impl GraphInline {
                 format!("~{}~", inlines_to_markdown(subscript, options))
             }
             GraphInline::SmallCaps(small_caps) => inlines_to_markdown(small_caps, options),
-            GraphInline::Code(_, text) => format!("`{}`", text),
+            GraphInline::Code(_, text) => {
+                // the delimiter is longer than any run of backticks in the code; a space keeps
+                // a backtick at either end apart from it
+                let longest = text
+                    .split(|c| c != '`')
+                    .map(|run| run.len())
+                    .max()
+                    .unwrap_or(0);
+                let delimiter = "`".repeat(longest + 1);
+                if text.starts_with('`') || text.ends_with('`') {
+                    format!("{} {} {}", delimiter, text, delimiter)
+                } else {
+                    format!("{}{}{}", delimiter, text, delimiter)
+                }
+            }
             GraphInline::Space => " ".into(),
             GraphInline::SoftBreak => "\n".into(),
             GraphInline::LineBreak => "\n".into(),
